@@ -834,7 +834,24 @@ def build_node(world, modname, node, ns):
     if node.get('level') is not None:
         suite.level = node['level']
     for ch in node.get('ch', []):
-        suite.addTest(build_node(world, modname, ch, ns))
+        if node.get('flat') and ch['t'] == 'class':
+            # a hand-built flat suite: the test instances of the class are
+            # added one by one next to their siblings (no suite per class);
+            # a test may carry a declaration of its own on the instance
+            cls = ns.get(ch['name'])
+            if cls is None:
+                cls = build_class(world, modname, ch)
+                ns[ch['name']] = cls
+            for name in unittest.TestLoader().getTestCaseNames(cls):
+                t = cls(name)
+                ts = cls._v_tests[name]
+                if ts.get('ilayer') is not None:
+                    t.layer = get_layer(world, ts['ilayer'])
+                if ts.get('ilevel') is not None:
+                    t.level = ts['ilevel']
+                suite.addTest(t)
+        else:
+            suite.addTest(build_node(world, modname, ch, ns))
     return suite
 
 
